@@ -652,6 +652,22 @@ func c17(c *core.Ctx) {
 		c.Exactly("merkle-leaves/methods", n, 3)
 	})
 
+	c.Clause("C17.6", "a Merkle proof is judged against the root the caller supplies: every return of merkle.Verify that can be true compares the hash computed from the target and the path with the root parameter")
+	c.Run("merkle-verify", func() {
+		v := c.Fn("common/merkle.Verify")
+		n := 0
+		for _, r := range core.Returns(v) {
+			val := core.RetVal(r, 0)
+			if bv, isC := core.BoolConst(val); isC && !bv {
+				continue
+			}
+			n++
+			sl := core.Slice(val)
+			c.Check("Verify:result-compares(root, hash(target, path))"+suffix(n-1, 9), "value-flow", sl[v.Params[0]] && sl[v.Params[1]] && sl[v.Params[2]], r.Pos(), "a possibly-true result of Verify is computed from the target, the supplied root and the path")
+		}
+		c.Floor("Verify/non-false-returns", n, 1)
+	})
+
 	c.NotDecidedf("the root as a function of the key/value SET (independence from insertion order, from commits and from cache eviction): a mutant inside Trie.insert / Trie.delete, hasher.hash or hasher.hashChildren is NOT detected")
 	c.NotDecidedf("proof soundness (merkle.FindSiblingNodes / merkle.Verify) and the Merkle tree shape incl. the odd-tail rule: a mutant inside merkle.calculateNodes is NOT detected")
 	c.NotDecidedf("that the element hashes cover all fields (C02.2, C04.1, C14.2 decide that), collision resistance of Keccak, RLP canonicity of node encodings")
